@@ -6,7 +6,7 @@ EXPLANATION = ('Sequential: after ROT push/pop pairs (ring position) a symbolic 
                'FIFO order, legality of empty/full reports are asserted after a sequential drain.')
 ASSUMPTIONS = ['capacities 2 (and 4 in thorough); ring rotations ROT in a small set (shape parameter, enumerated); <= 4 symbolic operations',
                '2 threads (3 in thorough), K rounds; vyukov strong operations spin while another operation is in flight: executions needing more than U spins are outside the bound']
-TIMEOUT = {'quick': 300, 'thorough': 2400}
+TIMEOUT = {'quick': 900, 'thorough': 2400}
 SEQ, MT = 'Q/queue_seq.cpp', 'Q/queue_mt.cpp'
 
 
